@@ -3,11 +3,15 @@
 to Lean (AgVerif.Gen.PyInsn) by gen/py2lean.py in init mode: the struct unpack is not interpreted,
 each `init_<fmt>` takes the unpacked values and returns the int attributes the constructor sets
 (`none` = the constructor raises).  `init_<fmt>_unpack` is the struct string and the slice length.
-Proof/PyInsn.lean proves each of them equal to the hand model AgVerif.Insn.post.  No loops."""
+Proof/PyInsn.lean proves each of them equal to the hand model AgVerif.Insn.post.
+`Instruction<fmt>.get_raw` of the same classes goes to AgVerif.Gen.PyInsnRaw (attribute-reading mode:
+the int attributes read are parameters, the struct pack is not interpreted: `get_raw_<fmt>` returns the
+argument tuple, `get_raw_<fmt>_pack` is the struct string); Proof/PyInsnRaw.lean proves them equal to
+AgVerif.Insn.packArgs on every object the constructor builds.  No loops."""
 import ast
 import os
 
-from gen.py2lean import Func, translate
+from gen.py2lean import Func, translate, T_LIST
 
 PATH = "androguard/core/dex/__init__.py"
 
@@ -21,4 +25,8 @@ def classes(repo):
 def generate(repo):
     specs = [Func("__init__", cls=c, init=True, unpacked="buff", lean_name="init_" + c[len("Instruction"):])
              for c in classes(repo)]
-    return translate(repo, PATH, "PyInsn", specs)
+    out = translate(repo, PATH, "PyInsn", specs)
+    raws = [Func("get_raw", cls=c, attrs_in=True, ctx_attrs=("cm",), ret=T_LIST, lean_name="get_raw_" + c[len("Instruction"):])
+            for c in classes(repo)]
+    out.update(translate(repo, PATH, "PyInsnRaw", raws))
+    return out
